@@ -81,6 +81,7 @@ type (
 		singletonMut        sync.Mutex
 		onceMut             sync.Mutex
 		postProcessors      []func() error
+		owed                int
 		dual                bool
 		options             *Options
 
@@ -192,6 +193,7 @@ func New(data Map, query string, options ...QueryOption) (q *Query, err error) {
 	if err != nil {
 		return nil, err
 	}
+	q.owed = len(q.postProcessors)
 	return q, nil
 }
 
@@ -210,6 +212,7 @@ func Prepare(data Map, statement sqlparser.Statement, options *Options) (*Query,
 	if err != nil {
 		return nil, err
 	}
+	q.owed = len(q.postProcessors)
 	return q, nil
 }
 
@@ -588,6 +591,8 @@ func BuildFromAliasedTable(query *Query, as string, expr sqlparser.SimpleTableEx
 			// (settle, not a copy of the list: what the derived table's deferred
 			// work defers in turn is registered with the derived table)
 			query.postProcessors = append(query.postProcessors, subquery.settle)
+			// the derived table is evaluated here, once, while the query is built
+			subquery.owed = len(subquery.postProcessors)
 			query.wg.Add(1)
 			go func() {
 				subquery.wg.Wait()
@@ -1971,8 +1976,17 @@ func (query *Query) execAndPostProcess() (result any, err error) {
 // registers its own
 func (query *Query) settle() error {
 	query.wg.Wait()
+	done := 0
 	defer func() {
-		query.postProcessors = nil
+		// the first `owed` entries were registered while the query was built
+		// (derived tables are evaluated then, once): when a failure stops the
+		// post-processing, the ones that have not run stay owed to the next Exec
+		if done < query.owed {
+			query.postProcessors = query.postProcessors[done:query.owed]
+			query.owed -= done
+			return
+		}
+		query.postProcessors, query.owed = nil, 0
 	}()
 	// by index: a post-processor may register further ones (AWAIT over a nested
 	// select adopts what that select deferred), they have to run as well
@@ -1981,6 +1995,7 @@ func (query *Query) settle() error {
 		if err != nil {
 			return err
 		}
+		done = i + 1
 	}
 	return nil
 }
